@@ -148,20 +148,27 @@ PYTHONS = [">=3.8", "^3.9", ">=3.7,<4.0", "~3.10", ">=2.7", "~2.7 || ^3.6", "*",
 WORDS = ["alpha", "beta", "core", "util", "io", "data", "net", "api", "impl", "compat", "cli", "types", "res", "tmpl"]
 SPECIAL_FILE_NAMES = ["with space.txt", "comma,file.dat", "plus+sign.cfg", "café.txt", 'quo"te.txt', "semi;colon.ini",
                       "UPPER.TXT", "dot.in.name.json", "-leading-dash.txt", "trailing.", "tilde~", "[bracket].txt"]
-EP_GROUPS = ["my.plugins", "pytest11", "poetry.application.plugin", "babel.extractors", "Group_With-Mixed.case"]
+EP_GROUPS = ["my.plugins", "pytest11", "poetry.application.plugin", "babel.extractors", "Group_With_Mixed.case"]
 LICENSE_NAMES = ["LICENSE", "LICENSE.txt", "LICENCE", "COPYING", "COPYING.LESSER", "AUTHORS", "AUTHORS.md", "NOTICE",
                  "LICENSE-MIT"]
 DEPS = ["requests", "attrs", "click", "tomli", "typing-extensions", "Jinja2"]
 
 
-def gen_version(rnd: random.Random) -> str:
+def gen_version(rnd: random.Random) -> tuple[str, list[str]]:
+    """a PEP 440 version in a (possibly non-normal) spelling, and which parts it has"""
     v = rnd.choice(RELEASES)
+    tags = []
     if rnd.random() < 0.2:
         v = rnd.choice(["1!", "2!", "0!"]) + v
-    v += rnd.choice(PRES) + rnd.choice(POSTS) + rnd.choice(DEVS) + rnd.choice(LOCALS)
+        tags.append("epoch")
+    for tag, pool in (("pre", PRES), ("post", POSTS), ("dev", DEVS), ("local", LOCALS)):
+        x = rnd.choice(pool)
+        if x:
+            tags.append(tag)
+        v += x
     if rnd.random() < 0.08:
         v = "v" + v
-    return v
+    return v, tags
 
 
 def module_name(name: str) -> str:
@@ -256,8 +263,10 @@ def generate(rnd: random.Random, want: set[str] | None = None) -> Project:
     name = rnd.choice(NAMES)
     if rnd.random() < 0.5:
         name += rnd.choice(["", "", "2", "-ext", ".Sub", "_x"])
-    version = gen_version(rnd)
+    version, vtags = gen_version(rnd)
     style = pick("style", ["project", "poetry", "poetry"])
+    if style == "project":
+        version = version.lower()   # the [project] schema pattern is lower-case only
     layout = pick("layout", ["package-flat", "package-flat", "package-src", "module-flat", "module-src", "explicit",
                              "explicit", "stubs"])
     feats += [f"style:{style}", f"layout:{layout}"]
@@ -512,11 +521,9 @@ def generate(rnd: random.Random, want: set[str] | None = None) -> Project:
     if rnd.random() < 0.25:
         config = {"local-version": rnd.choice(LOCAL_LABELS)}
         feats.append("local-version")
-    for tag, cond in [("epoch", "!" in version), ("pre", any(x in version.lower() for x in ("a", "b", "rc", "c", "pre"))),
-                      ("post", "post" in version or "rev" in version or "-" in version), ("dev", "dev" in version),
-                      ("local", "+" in version), ("name-normalised", mod != name)]:
-        if cond:
-            feats.append(tag)
+    feats += vtags
+    if mod != name:
+        feats.append("name-normalised")
     files = list(t.files.values())
     rnd.shuffle(files)
     meta = {"module": mod, "layout": layout, "packages": packages, "include": includes, "exclude": excludes,
